@@ -112,3 +112,39 @@ var propC06 = core.Prop[c06Scenario]{
 }
 
 func TestC06(t *testing.T) { core.Run(t, propC06) }
+
+// C15, Low-Latency responses: blocking-reload and delta-update responses of a muxer parse under
+// the strict grammar (the plain ones are covered by TestC15Muxer).
+var propC15LL = core.Prop[c06Scenario]{
+	ID:  "C15",
+	Sub: "muxer-ll",
+	Rule: "muxer half, Low-Latency: the scenarios of C06; every plain, blocking-reload and delta-update playlist response is fed to harness/m3u8x.Strict; " +
+		"non-trivial = a delta response with SKIPPED-SEGMENTS > 0 or a released blocking response was among them",
+	Draw: drawC06,
+	Exec: func(sc c06Scenario) core.Outcome {
+		var o core.Outcome
+		r := mux.RunC06(sc.Script, sc.Reqs, sc.Bursts, os.Getenv("VERIF_TMP"), func(class string) bool { return false })
+		if r.Skip != "" {
+			o.Skip = true
+			return o
+		}
+		o.NonTrivial = r.GrammarChecked > 0 && (r.Blocked > 0 || r.DeltaSkips > 0)
+		if r.DeltaSkips > 0 {
+			o.Labels = append(o.Labels, "muxer-ll:delta-with-skips")
+		}
+		if r.Blocked > 0 {
+			o.Labels = append(o.Labels, "muxer-ll:blocking-response")
+		}
+		for _, v := range r.Violations {
+			if v.Prop != "C15" {
+				o.Labels = append(o.Labels, "other-property-violated:"+v.Prop)
+			}
+		}
+		if m := r.Has("C15"); m != "" {
+			o.Violation = m
+		}
+		return o
+	},
+}
+
+func TestC15LL(t *testing.T) { core.Run(t, propC15LL) }
